@@ -272,6 +272,9 @@ func RandValue(r *fw.Rand, depth int) interface{} {
 	case 1:
 		return r.Bool()
 	case 2:
+		if r.Chance(1, 40) {
+			return RandString(r, fw.Pick(r, []int{63, 64, 65, 255, 256, 257, 1000, 5000})) // around typical buffer sizes
+		}
 		return RandString(r, 8)
 	case 3:
 		return RandDouble(r)
@@ -281,9 +284,16 @@ func RandValue(r *fw.Rand, depth int) interface{} {
 		return RandString(r, 2)
 	case 6:
 		n := r.Intn(5)
+		if r.Chance(1, 25) {
+			n = r.Range(10, 120)
+		}
 		l := make([]interface{}, n)
 		for i := range l {
-			l[i] = RandValue(r, depth-1)
+			if n > 8 {
+				l[i] = RandValue(r, 0)
+			} else {
+				l[i] = RandValue(r, depth-1)
+			}
 		}
 		return l
 	}
@@ -293,6 +303,9 @@ func RandValue(r *fw.Rand, depth int) interface{} {
 // RandObject draws an object whose member names stress UTF-16 ordering.
 func RandObject(r *fw.Rand, depth int) map[string]interface{} {
 	n := r.Intn(6)
+	if r.Chance(1, 25) {
+		n = r.Range(8, 70) // occasionally wide objects: member sorting beyond a handful of names
+	}
 	m := make(map[string]interface{}, n)
 	prefix := ""
 	if r.Chance(1, 3) {
